@@ -41,29 +41,29 @@ Fact(m) == IF m <= 1 THEN 1 ELSE IF m = 2 THEN 2 ELSE IF m = 3 THEN 6 ELSE IF m 
 \* (1) meshes.   [name, shape, dim, class, cs, X, cells]   coordinates = X / 2^cs,  G = 2^cs
 \* ------------------------------------------------------------------------------------------------------------------
 \* tensor grid on the lines xs (x) ys [(x) zs]; vertex (i,j,k) has the number i + j*nx + k*nx*ny
-GridX2(xs, ys) == [v \in 1..(Len(xs) * Len(ys)) |-> <<xs[((v - 1) % Len(xs)) + 1], ys[((v - 1) \div Len(xs)) + 1]>>]
+GridX2(xs, ys) == TLCEval([v \in 1..(Len(xs) * Len(ys)) |-> <<xs[((v - 1) % Len(xs)) + 1], ys[((v - 1) \div Len(xs)) + 1]>>])
 GridX3(xs, ys, zs) ==
-  [v \in 1..(Len(xs) * Len(ys) * Len(zs)) |->
-     <<xs[((v - 1) % Len(xs)) + 1], ys[(((v - 1) \div Len(xs)) % Len(ys)) + 1], zs[((v - 1) \div (Len(xs) * Len(ys))) + 1]>>]
+  TLCEval([v \in 1..(Len(xs) * Len(ys) * Len(zs)) |->
+     <<xs[((v - 1) % Len(xs)) + 1], ys[(((v - 1) \div Len(xs)) % Len(ys)) + 1], zs[((v - 1) \div (Len(xs) * Len(ys))) + 1]>>])
 \* the corners of grid cell q (0-based) in hypercube numbering (bit 0 = x, bit 1 = y, bit 2 = z)
 Corner2(nx, ny, q, b) == ((q % (nx - 1)) + RC!Bit(b, 0)) + ((q \div (nx - 1)) + RC!Bit(b, 1)) * nx
 Corner3(nx, ny, nz, q, b) ==
   LET i == q % (nx - 1)   j == (q \div (nx - 1)) % (ny - 1)   k == q \div ((nx - 1) * (ny - 1))
   IN (i + RC!Bit(b, 0)) + (j + RC!Bit(b, 1)) * nx + (k + RC!Bit(b, 2)) * nx * ny
-Quads(nx, ny) == [c \in 1..((nx - 1) * (ny - 1)) |-> [b \in 1..4 |-> Corner2(nx, ny, c - 1, b - 1)]]
-Hexas(nx, ny, nz) == [c \in 1..((nx - 1) * (ny - 1) * (nz - 1)) |-> [b \in 1..8 |-> Corner3(nx, ny, nz, c - 1, b - 1)]]
+Quads(nx, ny) == TLCEval([c \in 1..((nx - 1) * (ny - 1)) |-> TLCEval([b \in 1..4 |-> Corner2(nx, ny, c - 1, b - 1)])])
+Hexas(nx, ny, nz) == TLCEval([c \in 1..((nx - 1) * (ny - 1) * (nz - 1)) |-> TLCEval([b \in 1..8 |-> Corner3(nx, ny, nz, c - 1, b - 1)])])
 \* two positively oriented triangles per grid cell, the diagonal alternating with the parity of the cell
 TriCorners == << << <<0, 1, 3>>, <<0, 3, 2>> >>, << <<0, 1, 2>>, <<1, 3, 2>> >> >>
 Trias(nx, ny) ==
-  [c \in 1..(2 * (nx - 1) * (ny - 1)) |->
+  TLCEval([c \in 1..(2 * (nx - 1) * (ny - 1)) |->
      LET q == (c - 1) \div 2   h == (c - 1) % 2
          par == ((q % (nx - 1)) + (q \div (nx - 1))) % 2
-     IN [b \in 1..3 |-> Corner2(nx, ny, q, TriCorners[par + 1][h + 1][b])]]
+     IN TLCEval([b \in 1..3 |-> Corner2(nx, ny, q, TriCorners[par + 1][h + 1][b])])])
 \* Kuhn's splitting of a box into six positively oriented tetrahedra around the diagonal corner 0 -- corner 7
 KuhnCorners == << <<0, 1, 3, 7>>, <<0, 5, 1, 7>>, <<0, 3, 2, 7>>, <<0, 2, 6, 7>>, <<0, 4, 5, 7>>, <<0, 6, 4, 7>> >>
 Tetras(nx, ny, nz) ==
-  [c \in 1..(6 * (nx - 1) * (ny - 1) * (nz - 1)) |->
-     [b \in 1..4 |-> Corner3(nx, ny, nz, (c - 1) \div 6, KuhnCorners[((c - 1) % 6) + 1][b])]]
+  TLCEval([c \in 1..(6 * (nx - 1) * (ny - 1) * (nz - 1)) |->
+     TLCEval([b \in 1..4 |-> Corner3(nx, ny, nz, (c - 1) \div 6, KuhnCorners[((c - 1) % 6) + 1][b])])])
 
 MeshRec(name, shape, dim, class, cs, X, cells) ==
   [name |-> name, shape |-> shape, dim |-> dim, class |-> class, cs |-> cs, X |-> X, cells |-> cells]
@@ -118,11 +118,11 @@ Variant(M, k) ==
       cp(c) == (a2 * c + k) % nc                     \* 0-based old cell -> 0-based new position
       R == Rots(M.shape, M.dim)
       rot(c) == R[((5 * c + 3 * k) % Len(R)) + 1]
-      newcell(c) == [q \in 1..NVC(M) |-> vp(M.cells[c + 1][rot(c)[q] + 1])]
+      newcell(c) == TLCEval([q \in 1..NVC(M) |-> vp(M.cells[c + 1][rot(c)[q] + 1])])
       oldv(w) == CHOOSE v \in 0..(nv - 1) : vp(v) = w
       oldc(p) == CHOOSE c \in 0..(nc - 1) : cp(c) = p
-  IN [M EXCEPT !.X = [w \in 1..nv |-> M.X[oldv(w - 1) + 1]],
-               !.cells = [p \in 1..nc |-> newcell(oldc(p - 1))]]
+  IN [M EXCEPT !.X = TLCEval([w \in 1..nv |-> M.X[oldv(w - 1) + 1]]),
+               !.cells = TLCEval([p \in 1..nc |-> newcell(oldc(p - 1))])]
 
 \* every cell of every mesh must be a valid FEAT cell: positive orientation (at every corner)
 MeshValid(M) == \A c \in 1..NC(M) : RC!CellPositive(M.shape, M.dim, CellPts(M, c))
@@ -132,7 +132,13 @@ MeshValid(M) == \A c \in 1..NC(M) : RC!CellPositive(M.shape, M.dim, CellPts(M, c
 \* ------------------------------------------------------------------------------------------------------------------
 NLF(M) == RC!NFaces(M.shape, M.dim, M.dim - 1)        \* local facets per cell
 \* vertex tuple (global numbers) of local facet l (0-based) of cell c (1-based position), in the cell's local order
-FacetTuple(M, c, l) == LET fv == RC!FaceVerts(M.shape, M.dim, M.dim - 1, l) IN [i \in 1..Len(fv) |-> M.cells[c][fv[i] + 1]]
+\* (the local facet tables of RefCell.tla, evaluated once)
+FT_h2 == RC!FaceTable("hypercube", 2, 1)
+FT_h3 == RC!FaceTable("hypercube", 3, 2)
+FT_s2 == RC!FaceTable("simplex", 2, 1)
+FT_s3 == RC!FaceTable("simplex", 3, 2)
+LocalFacet(shape, dim, l) == (IF shape = "hypercube" THEN (IF dim = 2 THEN FT_h2 ELSE FT_h3) ELSE (IF dim = 2 THEN FT_s2 ELSE FT_s3))[l + 1]
+FacetTuple(M, c, l) == LET fv == LocalFacet(M.shape, M.dim, l) IN [i \in 1..Len(fv) |-> M.cells[c][fv[i] + 1]]
 \* all (cell, local facet) pairs; a facet is the vertex SET
 CellFacets(M) == {<<c, l>> : c \in 1..NC(M), l \in 0..(NLF(M) - 1)}
 FacetOf(M, cl) == RangeA(FacetTuple(M, cl[1], cl[2]))
@@ -219,7 +225,7 @@ FInfo(M, cl) ==
   IF kd = "other" THEN [k |-> kd, o |-> << >>, a |-> << >>, b |-> << >>, j2 |-> 0, j3 |-> 0, n |-> << >>]
   ELSE LET B == FBase(M, cl) IN
        [k |-> kd, o |-> B.o, a |-> B.a, b |-> B.b, j2 |-> FJac2(M, cl), j3 |-> (IF M.dim = 3 THEN FJac3(M, cl) ELSE 0), n |-> OutNormal(M, cl)]
-FInfoTable(M) == [cl \in CellFacets(M) |-> FInfo(M, cl)]
+FInfoTable(M) == TLCEval([cl \in CellFacets(M) |-> FInfo(M, cl)])
 \* reference integral of x^e over the facet of the pair, times IRefDen(kind); coordinates in integer units (x = X/G)
 IRef(fi, e) ==
   CASE fi.k = "seg" -> ISeg(fi.o, fi.a, e) [] fi.k = "rect" -> IRect(fi.o, fi.a, fi.b, e) [] fi.k = "rtri" -> ITri(fi.o, fi.a, fi.b, e)
@@ -232,7 +238,7 @@ DefKind(M) == IF M.dim = 2 THEN "seg" ELSE IF M.shape = "hypercube" THEN "rect" 
 SelSupported(FI, Sel) == \A cl \in Sel : FI[cl].k # "other"
 \* int over Sel of x^e dS  (every pair counts: an inner facet selected with both adjacent cells counts twice)
 \* (IR = table of the reference integrals  IR[cl][e] = IRef(FI[cl], e), computed once per mesh)
-IRefTable(FI, CF, Exps) == [cl \in CF |-> [e \in Exps |-> IF FI[cl].k = "other" THEN 0 ELSE IRef(FI[cl], e)]]
+IRefTable(FI, CF, Exps) == TLCEval([cl \in CF |-> TLCEval([e \in Exps |-> IF FI[cl].k = "other" THEN 0 ELSE IRef(FI[cl], e)])])
 MomVal(M, FI, IR, Sel, e) ==
   LET den == IRefDen(DefKind(M)) * PowA(MeshG(M), TotDeg(e) + M.dim - 1)
   IN IF M.dim = 2 THEN
